@@ -11,7 +11,7 @@ CONSTANTS
   RcRoots = FALSE
   AO = FALSE
   Fine = FALSE
-  Fix = {"F18"}
+  Fix = {"F18", "F20"}
   Mut = {}
   NoHist = FALSE
   Shapes <- ShapesWide
